@@ -10,4 +10,5 @@ var Registry = map[string]func(args []string){
 	"wire":     Wire,
 	"chanw":    ChanW,
 	"chanr":    ChanR,
+	"neg":      Neg,
 }
